@@ -140,14 +140,19 @@ fn case(t: &mut Tape, rec: &mut Rec<'_>) {
         use crate::refmodel::{b, BinOp, Var, E};
         let keys: Vec<&String> = req.context.keys().collect();
         let a = keys[t.upto(keys.len())].clone();
+        let a2 = a.clone();
         let lhs_bool = u::gen_expr(t, 1, u::K::Bool);
         let conn = if t.coin() { E::And(b(lhs_bool), b(E::GetAttr(b(E::Var(Var::Context)), a))) } else { E::Or(b(lhs_bool), b(E::GetAttr(b(E::Var(Var::Context)), a))) };
         let kind = u::KINDS[t.upto(u::KINDS.len())];
         let v = crate::emit::text::value_expr(&u::gen_value(t, kind, 1));
-        let cond = match t.upto(3) {
+        let cond = match t.upto(6) {
             0 => E::Bin(BinOp::Eq, b(conn), b(v)),
             1 => E::Bin(BinOp::Contains, b(E::Set(vec![conn])), b(v)),
-            _ => E::Bin(BinOp::Neq, b(v), b(conn)),
+            2 => E::Bin(BinOp::Neq, b(v), b(conn)),
+            // a record literal is evaluated as a whole: a field that is not projected can still error under a substitution
+            3 => E::GetAttr(b(E::Rec(vec![("ids".to_string(), E::Set(vec![E::Bin(BinOp::Add, b(E::GetAttr(b(E::Var(Var::Context)), a2.clone())), b(E::long(1)))])), ("ok".to_string(), u::gen_expr(t, 1, u::K::Bool))])), "ok".to_string()),
+            4 => E::Has(b(E::Rec(vec![("label".to_string(), v), ("tags".to_string(), E::Set(vec![E::Set(vec![E::Bin(BinOp::Mul, b(E::GetAttr(b(E::Var(Var::Context)), a2.clone())), b(E::long(2)))])]))])), vec![(*t.pick(&["label", "other"])).to_string()]),
+            _ => E::GetAttr(b(E::Rec(vec![("x".to_string(), conn), ("ok".to_string(), u::gen_expr(t, 1, u::K::Bool))])), "ok".to_string()),
         };
         let src = RPolicy { permit: t.coin(), principal: PrC::Any, action: ActC::Any, resource: PrC::Any, conds: vec![(true, cond)], annotations: vec![] };
         let (outcome, _) = src.outcome(&cx);
